@@ -1,5 +1,4 @@
 CONSTANTS Hosts <- H3  Weights <- W12  StratSet <- SRR  WtSet <- OnlyTrue  RefreshLists <- Lists1x  Codes <- C1
-CONSTANT CycleOf <- MCCycleOf
 SPECIFICATION Spec
 INVARIANTS TypeOK SelectsMember ErrorIffNoneEligible NoneEligibleMeans Rotation WeightedCycle CycleCoversAll
 CHECK_DEADLOCK FALSE
